@@ -63,6 +63,10 @@ def r1_swap(ctx, P):
                 expr_mentions(recv, lambda x: x[0] == "field" and x[2] == "chunk" and mentions_param(x, 1)) and \
                 any(tt["f"].get("path") == "core::cell::Cell::<T>::get" for _, tt in b.calls())
             ctx.inst(R, b.path, ok, f"{show(recv)}.set({show(v)}): the claimant's current chunk is written back", where=b.where(s), site="reclaim current chunk")
+            oku = b.must_pass(None, [s.bb], exits=(RET,), cleanup=False, from_edge=0)[0]
+            ctx.inst(R, b.path, oku, "the write-back happens on every path (also when the claimant never left a dummy chunk)" if oku else
+                     "reclaim can return without writing the chunk back: the original handle stays claimed for ever after the guard "
+                     "is gone", where=b.where(s), site="reclaim unconditional")
     d = [x for x in P.fn_bodies() if x.item["name"] == "drop" and "BumpClaimGuard" in x.path]
     if ctx.need(len(d) == 1, R, "Drop for BumpClaimGuard"):
         b = d[0]
@@ -248,6 +252,46 @@ def r4_scopes_through_guard(ctx, P):
             ctx.inst(R, b.path, ok, f"returns {show(rv[0]) if rv else '?'}", where=b.where(), site="target")
 
 
+def r6_non_dummy_witness(ctx, P):
+    R = "C14.R6"
+    ctx.rule(R, "NonDummyChunk is the witness type for 'neither claimed nor unallocated': it is constructed from an existing "
+                "RawChunk only after is_claimed() and is_unallocated() both returned false (classify), in the unsafe "
+                "unchecked constructor, or from a freshly allocated block / a prev-next link")
+    n = 0
+    for b in P.fn_bodies():
+        for s, st in b.assigns():
+            r = st["r"]
+            if not (r["k"] == "agg" and r.get("adt", "").endswith("NonDummyChunk")):
+                continue
+            n += 1
+            v = b.prov_operand(r["fields"][0], s)
+            k = f"construction of NonDummyChunk"
+            if b.item.get("unsafe"):
+                ctx.inst(R, b.path, True, "unsafe constructor: the caller vouches for the class", where=b.where(s), site=k + " (unsafe fn)")
+                continue
+            fresh = expr_mentions(v, lambda x: x[0] == "call" and x[1].endswith("Allocator::allocate"))
+            link = expr_mentions(v, lambda x: x[0] == "field" and x[2] in ("prev", "next")) and \
+                expr_mentions(v, lambda x: x[0] == "field" and x[2] == "header")
+            if fresh or link:
+                ctx.inst(R, b.path, True, "built from " + ("a freshly allocated block" if fresh else "a prev/next link of a real chunk"),
+                         where=b.where(s), site=k + (" (fresh)" if fresh else " (link)"))
+                continue
+            oks = []
+            for nm in ("is_claimed", "is_unallocated"):
+                te, fe = b.cond_edges(lambda e, nm=nm: True if (e[0] == "call" and e[1].split("::")[-1] == nm) else None)
+                oks.append(b.controlled_by(s, fe, cleanup=False))
+            if not oks[1]:
+                # a guaranteed-allocated arena is never unallocated (it can still be claimed)
+                ga, _ = b.cond_edges(lambda e: True if (e[0] == "assoc_const" and e[2] == "GUARANTEED_ALLOCATED") else None)
+                oks[1] = b.controlled_by(s, ga, cleanup=False)
+            ok = all(oks)
+            ctx.inst(R, b.path, ok, "constructed only after is_claimed() and is_unallocated() were both false" if ok else
+                     f"NonDummyChunk {{ raw: {show(v)[:50]} }} is constructed without both dummy tests (is_claimed false: {oks[0]}, "
+                     f"is_unallocated false: {oks[1]}): the CLAIMED / UNALLOCATED dummy header is then treated as a real chunk "
+                     "(stats of a claimed handle report a chunk, position writes go to a static)", where=b.where(s), site=k)
+    ctx.floor(R, "NonDummyChunk constructions", n, 5)
+
+
 EB_TRAIT = "error_behavior::ErrorBehavior"
 
 
@@ -292,4 +336,5 @@ def run(ctx, progs):
         r3_dummy_geometry(ctx, P)
         r4_scopes_through_guard(ctx, P)
         r5_claimed_is_not_alloc_failure(ctx, P)
+        r6_non_dummy_witness(ctx, P)
     ctx.config = None
